@@ -562,7 +562,7 @@ pub fn multi_movecursor(_args: &[String]) -> String {
             let got = term.contents();
             if got != want {
                 let h: Vec<&str> = hist.iter().map(String::as_str).collect();
-                return format!("{{\"found\": true, \"clause\": \"C04/C02 in cursor-moving mode a frame that goes away (clearing finish, dropped bar, clear, suspend) leaves nothing of the bars on the screen\", \"input\": {{\"history\": {}, \"expected_screen\": {}, \"screen\": {}}}, \"rerun\": \"replay multi_movecursor\"}}",
+                return format!("{{\"found\": true, \"clause\": \"C04/C02 in cursor-moving mode a frame that goes away (clearing finish, dropped bar, clear, suspend) leaves nothing of the bars on the screen (C03: what is printed afterwards is intact)\", \"input\": {{\"history\": {}, \"expected_screen\": {}, \"screen\": {}}}, \"rerun\": \"replay multi_movecursor\"}}",
                     crate::jlist(&h), crate::js(&want), crate::js(&got));
             }
         }
